@@ -99,6 +99,18 @@ func c34CheckRemove(w *lsWorld, where string, selectors []string, invBefore []ls
 	selected := map[string]bool{} // files that may / must go
 	allMatched := true
 	for _, sel := range selectors {
+		for _, s := range invBefore {
+			if strings.HasPrefix(s.Name, sel+"/") {
+				st.label("remove:selector-is-directory-of-indexed-name")
+				break
+			}
+		}
+		for _, s := range invBefore {
+			if s.Name != sel && strings.HasPrefix(s.Name, sel) {
+				st.label("remove:selector-is-prefix-of-indexed-name")
+				break
+			}
+		}
 		type key struct{ name, source string }
 		matches := map[key][]string{}
 		for _, s := range invBefore {
